@@ -54,6 +54,10 @@ def run(ctx):
     raises = [o for o in outs if o.kind == "raise"]
     rets = generic.sole_outcome(ctx, rets, f"{fq}: expected one normal outcome")
     eff = [strip_sites(e) for e in rets[0].effects]
+    # the skip flag, by its role: the attribute of the signer that is set under action == SKIP (whatever it is called)
+    skip_attrs = {e_.args[1].v for e_, g_ in _with_guards(eff) if isinstance(e_, App) and e_.op == "eff:setattr" and e_.args[0] == SELF
+                  and isinstance(e_.args[1], Const) and guard_actions(g_).get("SKIP") is True}
+    FLAG = next(iter(skip_attrs)) if len(skip_attrs) == 1 else "_skip_signing"
     envattr = App("attr:envelope", (SELF,))
     ENV = App("attr:value", (envattr,))
     wrapper = App("cborload", (App("idx", (ENV, Const(2))),))
@@ -73,12 +77,11 @@ def run(ctx):
     R.rule("C09-D1g action value is the enum", 2, "the CLI option and the recursive configuration both convert the action text to the enum that is compared")
     cmdm = repo.mod(CMD)
     enum_ok, default_ok, cli_seen = False, True, 0
-    for f_ in cmdm.functions.values():
-        for n_ in ast.walk(f_.node):
-            if isinstance(n_, ast.Call) and isinstance(n_.func, ast.Attribute) and n_.func.attr == "add_argument" and any(
-                    isinstance(a_, ast.Constant) and a_.value == "--already-signed-action" for a_ in n_.args):
+    # registrations as the module makes them: directly, through partials, table loops or helper functions (generic.cli_registrations)
+    for _f, n_, pos_, kw_, _recv in generic.cli_registrations(repo, cmdm):
+        if True:
+            if any(isinstance(a_, ast.Constant) and a_.value == "--already-signed-action" for a_ in pos_):
                 cli_seen += 1
-                kw_ = {k.arg: k.value for k in n_.keywords}
                 r_ = repo.resolve_expr(cmdm, kw_["type"]) if "type" in kw_ else None
                 enum_ok = bool(r_) and r_[0] == "class" and r_[1].name == "SignatureAlreadyPresentActions"
                 if "default" in kw_:
@@ -123,7 +126,7 @@ def run(ctx):
     # the rules below reason about "for each block: if it is a signature: act on it": the action effects must sit in the body of that
     # loop.  A search that only finds the block, with the actions after the loop, is another (equally valid) form they cannot follow
     in_loop_acts = [e_ for lp_ in loops for e_ in all_effects(lp_.args[1].args) if isinstance(e_, App) and (
-        (e_.op == "eff:setattr" and e_.args[1] == Const("_skip_signing")) or
+        (e_.op == "eff:setattr" and e_.args[1] == Const(FLAG)) or
         (e_.op == "eff:call" and isinstance(e_.args[0], App) and e_.args[0].op == "meth:remove"))]
     if not in_loop_acts:
         raise AnalysisError(f"{fq}: the already-signed actions are not performed inside the loop over the authentication wrapper "
@@ -156,7 +159,7 @@ def run(ctx):
     removes = [(e.args[0], guard_actions(g)) for e, g in _with_guards(eff) if isinstance(e, App) and e.op == "eff:call"
                and isinstance(e.args[0], App) and e.args[0].op == "meth:remove"]
     flags = [(e, guard_actions(g)) for e, g in _with_guards(eff) if isinstance(e, App) and e.op == "eff:setattr"
-             and e.args[1] == Const("_skip_signing")]
+             and e.args[1] == Const(FLAG)]
     ro_remove = [r for r, g in removes if g.get("REMOVE_OLD") is True]
     ok = len(removes) == 1 and len(ro_remove) == 1 and _base(ro_remove[0].args[0]) == wrapper and ro_remove[0].args[1] == el
     R.check("C09-D1d per-action effects", ok, "remove-old: the matched block is removed from the wrapper list", mod=asa.module, node=asa.node,
@@ -177,7 +180,7 @@ def run(ctx):
     R.check("C09-D1d per-action effects", not ro_flag, "remove-old falls through to signing (no skip, no raise)", mod=asa.module,
             node=asa.node, function=fq, expected="no skip flag under REMOVE_OLD", found=f"{ro_flag}"[:160])
 
-    skip_dominates(ctx)
+    skip_dominates(ctx, FLAG)
     key_match(ctx, ev)
     no_output_on_refusal(ctx, ev)
     recursive_wiring(ctx, ev)
@@ -201,7 +204,7 @@ def _exc(o):
     return "?"
 
 
-def skip_dominates(ctx):
+def skip_dominates(ctx, FLAG="_skip_signing"):
     """In sign_envelope the skip test precedes KMS signing and add_signature; the flag is reset per call."""
     R = ctx.report
     repo = ctx.repo
@@ -210,7 +213,7 @@ def skip_dominates(ctx):
     fq = ctx.fq(fi)
     ev = Evaluator(repo, inline_depth=0)
     outs = [o for o in ev.outcomes(fi) if o.kind == "return"]
-    flag = App("attr:_skip_signing", (SELF,))
+    flag = App("attr:" + FLAG, (SELF,))
     skip = [o for o in outs if flag in o.conds]
     sign = [o for o in outs if App("not", (flag,)) in o.conds]
     if len(skip) == 0:
@@ -241,10 +244,10 @@ def skip_dominates(ctx):
             and ng.index("already_signed_action") < ng.index("sign") < ng.index("add_signature"),
             "already-signed handling precedes signing, signing precedes add_signature", mod=fi.module, node=fi.node, function=fq,
             expected="already_signed_action -> kms.sign -> add_signature", found=f"{ng}")
-    R.check("C09-D1e skip dominates signing", "set:_skip_signing" in ns and ns.index("set:_skip_signing") < ns.index("already_signed_action"),
+    R.check("C09-D1e skip dominates signing", "set:" + FLAG in ns and ns.index("set:" + FLAG) < ns.index("already_signed_action"),
             "the skip flag is reset at the start of every call", mod=fi.module, node=fi.node, function=fq,
             expected="self._skip_signing = False before already_signed_action", found=f"{ns}")
-    resets = [e for e in all_effects(skip[0].effects) if isinstance(e, App) and e.op == "eff:setattr" and e.args[1] == Const("_skip_signing")]
+    resets = [e for e in all_effects(skip[0].effects) if isinstance(e, App) and e.op == "eff:setattr" and e.args[1] == Const(FLAG)]
     R.check("C09-D1e skip dominates signing", len(resets) == 1 and resets[0].args[2] == Const(False), "reset value is False",
             mod=fi.module, node=fi.node, function=fq, expected="False", found=f"{resets}"[:120])
     # skip returns the envelope with an empty write set outside the already-signed handling
@@ -621,7 +624,32 @@ def config_key_discipline(ctx):
                 continue
             for r in _reads(s, cfg):
                 reads.append((r, r.slice.value in guarded or _guarded_in_expr(s, r, cfg)))
+            # a private helper of the module that is handed the configuration: its body, with its parameters replaced by the
+            # arguments of this call, is read as if written here (key names given as arguments become literal keys)
+            for call in [n for n in ast.walk(s) if isinstance(n, ast.Call)]:
+                hname = call.func.attr if isinstance(call.func, ast.Attribute) else (call.func.id if isinstance(call.func, ast.Name) else None)
+                if not hname or not hname.startswith("_") or not any(isinstance(a_, ast.Name) and a_.id == cfg for a_ in list(call.args) + [k.value for k in call.keywords]):
+                    continue
+                cands = [f for q, f in init.module.functions.items() if q.rsplit(".", 1)[-1] == hname and f is not init]
+                if len(cands) != 1 or cands[0] in expanding:
+                    continue
+                h = cands[0]
+                hp = h.params()
+                if h.kind in ("method", "classmethod") and isinstance(call.func, ast.Attribute):
+                    hp = hp[1:]
+                mapping = {p_: a_ for p_, a_ in zip(hp, call.args)}
+                mapping.update({k.arg: k.value for k in call.keywords if k.arg})
+                import copy as _copy
 
+                class _S(ast.NodeTransformer):
+                    def visit_Name(self, node):
+                        return _copy.deepcopy(mapping[node.id]) if isinstance(node.ctx, ast.Load) and node.id in mapping else node
+                body = [_S().visit(_copy.deepcopy(st_)) for st_ in h.node.body]
+                expanding.append(h)
+                visit(body, guarded)
+                expanding.pop()
+
+    expanding = []
     visit(init.node.body, set())
     keys_read = {r.slice.value for r, _ in reads}
     if len(keys_read) < 8:
